@@ -192,6 +192,32 @@ CLAIMED = {
              "Tie: tuples returned, validity outcomes incl. exception classes on a corruption stream, against the model.",
         technique="Lean 4 proof (Layer-D reader vs tree induction, path-node inclusion lemmas) + correspondence check incl. forged branches",
         design_ref="6/C13"),
+    "C09": dict(
+        text="Theorems about the abstract walk (state = fog + pairs met; a step takes ANY unexplored prefix and the description - node "
+             "or simulated node - of SOME version of the trie at it: the current version from the root, an older one through a "
+             "frontier-cache entry, justified by C08 traverse_from_eq/sim; a schedule is any list of steps, i.e. any order and any "
+             "interleaving with modifications): a step on an unexplored prefix is never rejected (step_defined); every key whose "
+             "value is the same in all versions consulted is met with that value once the fog is complete (finds_stable, invariant); "
+             "every pair met was stored in some version (sound); on an unchanging trie the pairs met are exactly the contents "
+             "(exact); while keys have at most L nibbles every step strictly decreases a measure starting at 17^(L+1) "
+             "(step_decreases, measure_start), so the walk terminates with the fog complete under finitely many modifications "
+             "(unbounded ever-longer modifications: termination is false and not claimed). Modelled not proved: that a stale cached "
+             "node is the node of an older version (hash-linked immutability of old subtrees; with pruning, a pruned child raises "
+             "MissingTraversalNode and the entry is dropped) - tied by running real walks with the real cache against the model.",
+        technique="Lean 4 proof (walk invariant over arbitrary schedules, well-founded measure) + correspondence check on real walks",
+        design_ref="6/C09"),
+    "C18": dict(
+        text="Theorems on the validation table transcribed from the entry points (order of checks as in the code): every entry point "
+             "has the shape validate-then-operate, so a refused call returns the state unchanged and any continuation is unaffected "
+             "(refused_call_changes_nothing, history_unaffected) - at any point of any history; for ALL values: a non-bytes "
+             "key/root/prefix is refused with ValidationError by each of the 37 listed entry points, a non-bytes value by the setters, "
+             "wrong-length keys/branches/root hashes by the SMT, calc_root and proof entry points, key sizes outside 1..32, a snapshot "
+             "of a pruning trie (ValidationError), a ref count for a non-pruning trie (ValueError), non-sequences (bytes and str "
+             "included) as nibbles (TypeError) and bad nibble elements (ValueError). The theorems are easy by construction; the weight "
+             "is on the tie: the table x bad-value kinds at random points of random histories against the real entry points "
+             "(exception class; root/db/ref counts/proof/fog unchanged; the rest of the history equals a twin that never saw the calls).",
+        technique="Lean 4 proof (validation table, validate-then-operate shape) + correspondence check of the table against the code",
+        design_ref="6/C18"),
 }
 REASON_PENDING = "check not built yet in this revision (work in progress, see DESIGN.md section 10)"
 
